@@ -87,6 +87,13 @@ type Case struct {
 	// Stale: the repeated run of the last program finds the (much longer)
 	// output files of an earlier compilation in its directory.
 	Stale bool `json:"stale,omitempty"`
+	// Decoy (multi): a second package root holds files with the paths of
+	// the case's library packages and unusable contents.  "second": every
+	// measured compilation searches [root, decoy] (the first directory
+	// that has the package must win); "history": an earlier compilation in
+	// the process ran with the decoy root alone (where another compilation
+	// found a package must not matter); "both".
+	Decoy string `json:"decoy,omitempty"`
 }
 
 func init() {
@@ -130,6 +137,9 @@ func newParams(cs Case, root string) *utils.Params {
 	p.CircMultArrayTreshold = cs.MultThr
 	if root != "" {
 		p.PkgPath = []string{root}
+		if cs.Decoy == "second" || cs.Decoy == "both" {
+			p.PkgPath = []string{root, root + "-decoy"}
+		}
 	}
 	return p
 }
@@ -202,6 +212,20 @@ func compileHist(cs Case, h Hist, params *utils.Params) {
 // preceded by the history of the case (its effect, if any, is deterministic);
 // all others use fresh parameters and no history (they only add samples of
 // the runtime's map iteration orders).
+// decoyHistory compiles the program once with the decoy root as its only
+// package path (its error is not judged).  It runs before the first measured
+// compilation of the case, so that it is the first compilation of the process
+// that resolves the case's import paths.
+func decoyHistory(cs Case, root string) {
+	if root == "" || !(cs.Decoy == "history" || cs.Decoy == "both") {
+		return
+	}
+	defer func() { recover() }()
+	dp := newParams(Case{Prune: cs.Prune, GMW: cs.GMW, MultThr: cs.MultThr}, root+"-decoy")
+	dp.SSAOut = new(sink)
+	compiler.New(dp).Compile(mainSource(cs), cs.Sizes)
+}
+
 func measure(cs Case, root string, rep int) result {
 	params := newParams(cs, root)
 	if rep == 1 || rep == 2 {
@@ -708,7 +732,21 @@ func writeScratch(cs Case) (root string, cleanup func(), skip string) {
 	if err != nil {
 		return "", cleanup, "scratch directory: " + err.Error()
 	}
-	cleanup = func() { os.RemoveAll(dir) }
+	cleanup = func() { os.RemoveAll(dir); os.RemoveAll(dir + "-decoy") }
+	if cs.Decoy != "" {
+		for _, f := range cs.Files {
+			p := filepath.Join(dir+"-decoy", filepath.FromSlash(f.Path))
+			if !strings.HasPrefix(filepath.Clean(p), dir+"-decoy") || !strings.HasSuffix(p, ".mpcl") {
+				continue
+			}
+			os.MkdirAll(filepath.Dir(p), 0o755)
+			pkg := filepath.Base(filepath.Dir(p))
+			// A package that parses (so that a cache of "where was
+			// this import found" would remember it) and has nothing
+			// the program needs.
+			os.WriteFile(p, []byte("package "+pkg+"\n\nfunc Decoy(x uint8) uint8 {\n\treturn x\n}\n"), 0o644)
+		}
+	}
 	for _, f := range cs.Files {
 		p := filepath.Join(dir, filepath.FromSlash(f.Path))
 		if !strings.HasPrefix(filepath.Clean(p), dir) {
@@ -747,6 +785,7 @@ func run(cs Case) ev.Outcome {
 		return ev.Outcome{Skip: skip}
 	}
 	defer cleanup()
+	decoyHistory(cs, root)
 
 	// Worker processes run concurrently with the in-process repetitions.
 	type wres struct {
@@ -1013,6 +1052,10 @@ func genMulti(t *rapid.T) Case {
 	cs := Case{Kind: "multi"}
 	cs.Main, cs.HistMains, cs.Files, cs.Tags = drawMultiProgram(t)
 	drawCommon(t, &cs, true, true)
+	cs.Decoy = rapid.SampledFrom([]string{"", "", "second", "history", "both"}).Draw(t, "decoy")
+	if cs.Decoy != "" {
+		cs.Tags = append(cs.Tags, "decoy-root="+cs.Decoy)
+	}
 	return cs
 }
 
